@@ -16,7 +16,7 @@ RUST_KW = ["as", "break", "const", "fn", "for", "if", "impl", "in", "let", "loop
 RESERVED = ["self", "Self", "super", "crate"]
 TYPE_POOL = ["Thing", "Item", "Config", "State", "Kind", "Point", "Foo", "BarBaz", "T1", "My9"]
 METHOD_POOL = ["Get", "Set", "List", "DoIt", "Ping", "FooBar", "Update", "Q1", "Monitor", "Reset"]
-ERROR_POOL = ["Failed", "NotFound", "Busy", "BadThing", "E1"]
+ERROR_POOL = ["Failed", "NotFound", "Busy", "BadThing", "E1", "InterfaceNotFound", "MethodNotImplemented", "Error", "Parameters", "Io"]
 
 
 class IdlGen:
@@ -208,7 +208,10 @@ def c09(ck):
         ("known", "interface a.b\nerror E (x: []?(p, q))\nmethod M() -> ()\n"), ("known", "interface a.b\nmethod FooBar() -> ()\nmethod FooBAR() -> ()\n"),
         ("known", "interface a.b\nmethod M(a_b: (x: int), a: (b: (y: int))) -> ()\n"), ("known", "interface a.b\ntype Error (a: int)\nmethod M() -> ()\n"),
         ("known", "interface a.b\ntype Option (a: int)\nmethod M(o: ?int) -> ()\n"), ("known", "interface a.b\nmethod Type() -> ()\n"),
-        ("known", "interface a.b\nmethod Match(a: int) -> ()\nmethod Fn() -> ()\n"), ("known", "interface a.b\ntype Self (a: int)\nmethod M() -> ()\n"),
+        ("known", "interface a.b\nmethod Match(a: int) -> ()\nmethod Fn() -> ()\n"), ("known", "interface a.b\nmethod M(a: int) -> ()\nerror InvalidParameter (x: int)\n"),
+        ("known", "interface a.b\nmethod M() -> ()\nerror MethodNotFound (method: string, x: ?int)\n"), ("known", "interface a.b\nmethod M() -> ()\nerror Struct ()\n"),
+        ("known", "interface a.b\nmethod M() -> ()\nerror Self (x: int)\n"),
+        ("clean", "interface a.b\nmethod M(a: int) -> ()\nerror InterfaceNotFound (interface: string, hint: ?string)\nerror MethodNotImplemented (method: string)\nerror Result ()\nerror Call (x: int)\nerror Reply ()\nerror Kind ()\n"), ("known", "interface a.b\ntype Self (a: int)\nmethod M() -> ()\n"),
     ]
     texts += special
     for i in range(10 if quick else 60):
@@ -320,6 +323,29 @@ def c09(ck):
         failing = set(failing_modules(log))
         ck.extra["known_class_modules_failing_to_compile"] = len(failing)
         ck.extra["known_class_modules"] = len(known_mods)
+    # the build-script front end (cargo_build): the file it leaves in $OUT_DIR is what generate() emits for the definition it was
+    # last run on - also when an earlier, longer or shorter, definition was built under the same name before (a rebuild after an edit)
+    clean_sorted = sorted([t for (cid, t, code) in mods], key=len)
+    if clean_sorted:
+        pairs = [(clean_sorted[-1], clean_sorted[0]), (clean_sorted[0], clean_sorted[-1]), (clean_sorted[len(clean_sorted) // 2], clean_sorted[0])]
+        for _ in range(3 if quick else 20):
+            pairs.append((rng.choice(clean_sorted), rng.choice(clean_sorted)))
+        pairs += [(t,) for t in clean_sorted[:2]]
+        bl = ["r%d buildrs %s" % (i, " ".join(hx(t) for t in pr)) for i, pr in enumerate(pairs)]
+        bres = run_lines(harness_bin("h_gen"), bl, shards=1, timeout=300)
+        for i, pr in enumerate(pairs):
+            ck.case("buildrs" + "\n--\n".join(pr))
+            ck.count("build_script_front_end")
+            r = bres["r%d" % i]
+            if r != "same":
+                f = fields(r) if r.startswith("differs") else {}
+                got = unhx(f["got"]).decode("utf-8", "replace") if "got" in f else ""
+                want = unhx(f["want"]).decode("utf-8", "replace") if "want" in f else ""
+                k = next((j for j in range(min(len(got), len(want))) if got[j] != want[j]), min(len(got), len(want)))
+                ck.failures.append({"what": "the file the build-script helper cargo_build() leaves in OUT_DIR is not the code generate() emits for the definition it was run on"
+                                            + (" (the same file name was built from another definition before)" if len(pr) > 1 else ""),
+                                    "built_before": pr[0][:600] if len(pr) > 1 else None, "idl": pr[-1][:600], "result": r[:60],
+                                    "first_difference_at": k, "file_len": len(got), "expected_len": len(want), "file_there": got[k:k + 200]})
     # the CLI front end emits the same text as the library for a sample
     rc, log = sh(["cargo", "build", "--offline", "--quiet", "-p", "varlink_generator", "--bin", "varlink-rust-generator"], cwd=REPO,
                  env=dict(ENV, CARGO_TARGET_DIR=os.path.join(BUILD, "target-repo")), timeout=1500)
@@ -379,6 +405,11 @@ def c08_corpora(rng, quick):
         # the quick tier keeps the chains that end in a map or contain an anonymous type (the shapes with special cases in the generator)
         sysecho = [t for t in sysecho if "dict" in json.dumps(t) or "struct" in json.dumps(t) or "enum" in json.dumps(t)]
     out.append(("c8s", Corpus("org.example.c8s", [("S", S), ("E", E)], sysecho, [])))
+    # declared errors whose names end like org.varlink.service errors (org.varlink.resolver declares InterfaceNotFound itself; InvalidParameter and
+    # MethodNotFound cannot be declared: C09 known class ErrorNameClashes):
+    # they are this interface's errors, to arrive as its own variants with all their parameters
+    out.append(("c8n", Corpus("org.example.c8n", [("S", S)], [("string",), ("name", "S"), ("option", ("string",)), ("int",), ("array", ("string",))], [],
+                              err_names=["InterfaceNotFound", "MethodNotImplemented", "NotFound", "Error", "Parameters"])))
     if not quick:
         # random corpora
         pool = [("bool",), ("int",), ("float",), ("string",), ("object",), ("set",)]
@@ -537,7 +568,7 @@ def c08(ck):
             if not res.startswith("err:Err%d:" % i) or c08gen.drop_nulls(struct_t, loads(unhx(res.split(":")[2]).decode("utf-8")), c.env) != want:
                 ck.failures.append(dict(desc, what="a declared error did not arrive as the matching error variant with equal parameters", res=res[:300], expected=want))
             rr = [loads(x.decode("utf-8")) for x in unhx(f["raw_reply"]).split(b"\0")[:-1]]
-            if not rr or rr[0].get("error") != "%s.Err%d" % (c.iface, i):
+            if not rr or rr[0].get("error") != "%s.%s" % (c.iface, c.err_name(i)):
                 ck.failures.append(dict(desc, what="error reply name is not <interface>.<Error>", got=rr))
         # model: reading the arguments against the method's input struct and writing them back gives the wire parameters
         if cid in model:
